@@ -54,21 +54,24 @@ class DictAdapter(Adapter):
 
     def assign(self, old_value, old_node, new_value):
         if old_node is not None:
+            if isinstance(old_node, ast.Dict):
+                # `**d` can add any number of keys to the dict,
+                # this has to be checked before the number of keys is compared
+                for key, value in zip(old_node.keys, old_node.values):
+                    if key is None:
+                        warnings.warn_explicit(
+                            "star-expressions are not supported inside snapshots",
+                            filename=self.context.file._source.filename,
+                            lineno=value.lineno,
+                            category=InlineSnapshotSyntaxWarning,
+                        )
+                        return old_value
+
             if not (
                 isinstance(old_node, ast.Dict) and len(old_value) == len(old_node.keys)
             ):
                 result = yield from self.value_assign(old_value, old_node, new_value)
                 return result
-
-            for key, value in zip(old_node.keys, old_node.values):
-                if key is None:
-                    warnings.warn_explicit(
-                        "star-expressions are not supported inside snapshots",
-                        filename=self.context.file._source.filename,
-                        lineno=value.lineno,
-                        category=InlineSnapshotSyntaxWarning,
-                    )
-                    return old_value
 
             for value, node in zip(old_value.keys(), old_node.keys):
 
